@@ -405,6 +405,43 @@ func runC15(c *Ctx) {
 			}
 		})
 	}
+	// state hidden in closures: a local sync primitive, or a captured variable that a closure
+	// built at construction time writes when it is invoked later (a memo shared by all requests)
+	reachRT := p.RequestTimeReach()
+	for _, fn := range p.Funcs {
+		if !p.inScope(fn) {
+			continue
+		}
+		ForEachInstr(fn, func(in ssa.Instruction) {
+			switch x := in.(type) {
+			case *ssa.Alloc:
+				if isSyncState(x.Type().(*types.Pointer).Elem()) {
+					bad++
+					c.Bad("C15.4", FuncName(fn), "local "+x.Type().(*types.Pointer).Elem().String(), x.Pos(), "a local "+x.Type().(*types.Pointer).Elem().String()+" (captured by a closure it outlives the call): cross-request state outside the pools")
+				}
+			case ssa.CallInstruction:
+				if IsCallTo(x, "sync.OnceFunc", "sync.OnceValue", "sync.OnceValues") {
+					bad++
+					c.Bad("C15.4", FuncName(fn), "call "+CalleeName(x), x.Pos(), "a once-memo is cross-request state outside the pools")
+				}
+			case *ssa.Store:
+				fv, isFV := x.Addr.(*ssa.FreeVar)
+				if !isFV || fn.Parent() == nil {
+					return
+				}
+				// the closure's outermost enclosing function
+				top := fn
+				for top.Parent() != nil {
+					top = top.Parent()
+				}
+				if reachRT[top] {
+					return // created and run within one request
+				}
+				bad++
+				c.Bad("C15.4", FuncName(fn), "store captured "+fv.Name(), x.Pos(), "a closure created outside request handling writes its captured variable "+fv.Name()+" when invoked: the value is shared by every later request")
+			}
+		})
+	}
 	if bad == 0 {
 		c.OK("C15.4", "package", "no-cross-request-state", token.NoPos, "no sync.Once/sync.Map/atomic cells and no package variable stores outside init in the root package")
 	}
